@@ -1,6 +1,33 @@
-(* C02 — cache transparency and graceful restart.  Headline theorems only (first version). *)
-From Coq Require Import List.
-From Pyro Require Import Model.Lfu Model.Cache Proofs.CacheProofs.
+(* C02 — cache transparency and graceful restart.  Headline theorems only.
+
+   Full statement (DESIGN.md section 4, C02_refines): the storage model instantiated with Cache (LFU + Badger + the four
+   codecs) answers every query like the storage model over plain maps, for every history with evictions of any cache
+   and restarts inserted anywhere.  That needs Model/Storage.v over an abstract KV and the round trips of the tree,
+   dictionary and segment codecs (C04, C12, C14: other builders).  What is proved here is the part that does not
+   depend on them:
+
+   C02_cache_transparent — the lifting lemma over an ABSTRACT object store: for any key type, any object type V with an
+     equivalence Req ("same profile up to zero frames", "same dictionary", "same segment tree" ...), any codec
+     (enc = Bytes, dec = FromBytes) and any default constructor, a client history of Put / Get / Get-then-mutate /
+     Delete with evictions (any fraction, any visiting order the LFU allows) and flush+reopen cycles inserted
+     anywhere returns reads equivalent to the reads of the same history without them.
+     Per-codec hypotheses, to be discharged per cache by the other builders' theorems:
+       (H1) Equivalence Req
+       (H2) forall k v, Req (dec k (enc k v)) v                      — round trip up to Req
+              trees:      C04_lossless (node count < MaxNodesSerialization, exact trees) with C12 for the dictionary
+              dicts:      C12 (keys stay valid; Req = "resolves every issued key to the same name")
+              segments:   C14 (s_codec_roundtrip)
+              dimensions: C02_dim_roundtrip below (Req = eq)
+       (H3) Forall (congr_op Req) (lower cops)                       — every function applied to an object through a
+              pointer (merge into a cached tree, Dimension.Insert/Delete, segment put, dictionary growth) maps
+              equivalent objects to equivalent objects
+     Side conditions carried by the shape of the history (is_sync): an eviction is followed by the completion of its
+     saves before the next client operation (VerifEvict waits on the eviction barrier; excludes D11), no write-back
+     (excludes D10: C02_writeback_refuted), a mutation directly follows the Get that returned the object.
+   NOT covered, found by the correspondence run: floor-scaled per-bucket trees are not "exact", so (H2) fails for them
+   with Req = "same totals": known finding scaled-totals-reloaded. *)
+From Coq Require Import List NArith.
+From Pyro Require Import Model.Base Model.Varint Model.DimCodec Model.Lfu Model.Cache Proofs.CacheProofs Proofs.DimCodecProofs.
 Import ListNotations.
 
 Theorem C02_cache_transparent :
@@ -16,3 +43,44 @@ Theorem C02_cache_transparent :
               (rets (fst (run keq dflt enc dec c_empty (lower (filter (fun o => negb (is_maint o)) cops))))).
 Proof. exact (@cache_transparent). Qed.
 Print Assumptions C02_cache_transparent.
+
+(* one step of the simulation, for clients that are not lists of operations (the storage model calls the cache
+   operation by operation): the invariant Inv relates a cache state to a plain map and is preserved by every
+   admissible operation, with equivalent outputs *)
+Theorem C02_step_simulation :
+  forall (K V D : Type) (keq : forall a b : K, {a = b} + {a <> b})
+         (dflt : K -> V) (enc : K -> V -> D) (dec : K -> D -> V)
+         (Req : V -> V -> Prop),
+  RelationClasses.Equivalence Req ->
+  (forall k v, Req (dec k (enc k v)) v) ->
+  forall c m o rest,
+  Inv keq dec Req c m (o :: rest) -> op_ok keq c o rest -> congr_op Req o ->
+  out_rel Req (snd (step keq dflt enc dec c o)) (snd (spec_step keq dflt m o)) /\
+  Inv keq dec Req (fst (step keq dflt enc dec c o)) (fst (spec_step keq dflt m o)) rest.
+Proof. exact (@step_sim). Qed.
+Print Assumptions C02_step_simulation.
+
+Theorem C02_dim_roundtrip : forall d, keys_small d -> dim_dec (dim_enc d) = Some d.
+Proof. exact dim_roundtrip. Qed.
+Print Assumptions C02_dim_roundtrip.
+
+(* D10 at the level of the object store: one dropped write-back send, flush+reopen, and a read differs *)
+Theorem C02_writeback_refuted :
+  ~ In Bad (fst (run N.eq_dec w_dflt w_id w_id c_empty (lower w_c02_wb))) /\
+  rets (fst (run N.eq_dec w_dflt w_id w_id c_empty (lower w_c02_wb))) = [11; 1001]%N /\
+  rets (fst (run N.eq_dec w_dflt w_id w_id c_empty (lower w_c02_plain))) = [11; 12]%N.
+Proof. exact c02_writeback_refuted. Qed.
+Print Assumptions C02_writeback_refuted.
+
+Example C02_cache_transparent_nonvacuous :
+  (forall k v, w_req (w_id k (w_enc100 k v)) v) /\
+  forallb (is_sync (K:=N) (V:=N)) w_transparent = true /\
+  Forall (congr_op w_req) (lower w_transparent) /\
+  rets (fst (run N.eq_dec w_dflt w_enc100 w_id c_empty (lower w_transparent))) = [205; 8; 8; 108]%N /\
+  rets (fst (run N.eq_dec w_dflt w_enc100 w_id c_empty (lower (filter (fun o => negb (is_maint o)) w_transparent)))) = [205; 208; 208; 308]%N.
+Proof. exact c02_transparent_nonvacuous. Qed.
+
+Example C02_dim_roundtrip_nonvacuous :
+  keys_small [[97; 112; 112; 123; 125]; []; [255; 0]]%N /\
+  dim_dec (dim_enc [[97; 112; 112; 123; 125]; []; [255; 0]]%N) = Some [[97; 112; 112; 123; 125]; []; [255; 0]]%N.
+Proof. exact dim_roundtrip_nonvacuous. Qed.
